@@ -442,6 +442,63 @@ func runCloneCase(cc CloneCase) (*Fail, []string, map[string]int, error) {
 	if ci.CloneStatus != "completed" {
 		return fail("clone|rw-but-status-not-completed", "clone is RW but reports status "+ci.CloneStatus, "C19"), x.Trace, labels, nil
 	}
+	if cc.Interrupt == "restartafter" {
+		// the new volume lives on: writes, a snapshot, more writes - then the clone's
+		// process is restarted with the same arguments (its pod is rescheduled). It is a
+		// completed clone: it must come back with what the volume holds now, not clone again.
+		size := int64(len(readBuf))
+		cur := want.Clone()
+		wr := func(k int) *Fail {
+			blk := int64((cc.KillAtMs + 7*k) % cc.Blocks)
+			data := payload(7000+k, 1+(cc.KillAtMs+k)%200, blk*Blk, Blk)
+			if n, err := dst.C.WriteAt(data, blk*Blk); err != nil || n != len(data) {
+				return fail("clone|write-after-completion-failed", fmt.Sprintf("write through the new volume: n=%d err=%v", n, err), "C19")
+			}
+			cur.Write(blk*Blk, data)
+			return nil
+		}
+		for k := 0; k < 3; k++ {
+			if f := wr(k); f != nil {
+				return f, x.Trace, labels, nil
+			}
+		}
+		if _, err := dst.C.Snapshot("afterclone"); err != nil {
+			return fail("clone|snapshot-after-completion-failed", err.Error(), "C19", "C13"), x.Trace, labels, nil
+		}
+		for k := 3; k < 5; k++ {
+			if f := wr(k); f != nil {
+				return f, x.Trace, labels, nil
+			}
+		}
+		child.killReplica()
+		tr("clone process restarted after completion")
+		labels["clone:restarted-after-completion"]++
+		time.Sleep(3300 * time.Millisecond) // DESIGN 7.3
+		c2, err := startCloneChild(bin, cloneDir, cloneIP, src.CtrlIP, snapName, dst.CtrlIP, int64(cc.Blocks)*Blk, pb+40, pb+79)
+		if err != nil {
+			return nil, nil, nil, err
+		}
+		defer c2.stop()
+		back := false
+		for t1 := time.Now(); time.Since(t1) < 60*time.Second; time.Sleep(50 * time.Millisecond) {
+			if cloneMode(dst, cloneAddr) == types.RW {
+				back = true
+				break
+			}
+		}
+		if !back {
+			labels["clone:not-back-after-restart"]++
+			return nil, x.Trace, labels, nil // liveness: not promised
+		}
+		n, err := dst.C.ReadAt(readBuf, 0)
+		if err != nil || int64(n) != size {
+			return fail("clone|restart-after-completion|read-failed", fmt.Sprintf("read through the new volume after the clone's restart: n=%d err=%v", n, err), "C19"), x.Trace, labels, nil
+		}
+		if d := cur.Diff(readBuf, 0); d != "" {
+			return fail("clone|restart-after-completion|acknowledged-data-lost", fmt.Sprintf("the completed clone was restarted; the new volume now reads: %s (chain %v)", d, func() []string { ci, _ := getChildInfo(cloneIP); return ci.Chain }()), "C19", "C10"), x.Trace, labels, nil
+		}
+		labels["clone:intact-after-restart"]++
+	}
 	return nil, x.Trace, labels, nil
 }
 
@@ -474,6 +531,9 @@ func genCloneCase(t *rapid.T) CloneCase {
 		cc.KillAtMs = rapid.IntRange(0, 3000).Draw(t, "killat")
 	case 3:
 		cc.Interrupt = "shortchain"
+	case 6:
+		cc.Interrupt = "restartafter"
+		cc.KillAtMs = rapid.IntRange(0, 3000).Draw(t, "restartseed")
 	case 4, 5:
 		cc.Interrupt = "resize"
 		cc.KillAtMs = rapid.IntRange(0, 2500).Draw(t, "resizeat")
